@@ -8,6 +8,7 @@ from ..astutil import (src, flat_guards, guards, calls_in, call_name, kwarg, con
 from ..cfg import cfg_of, Prov, resolve_local
 from ..translator import TRANSLATORS, dispatch_table, child_kinds
 from .. import variants as V
+from .. import kernel
 
 PROPERTY = "C12"
 TITLE = "Translations are faithful to the program's declarations and annotations"
@@ -788,6 +789,11 @@ def r9_java_primitive_names(repo):
     return obs
 
 
+def r10_variance(repo):
+    """the Kotlin / Scala printers take the keyword from variance_to_str()"""
+    return kernel.variance_table(repo, "C12-R10")
+
+
 def rules():
     return [
         RuleSpec("C12-R1", "annotation printed iff carried; writer/reader agreement (R1+R2)", 18, r1_r2_annotations),
@@ -798,6 +804,7 @@ def rules():
         RuleSpec("C12-R7", "boolean attributes of the node are consulted independently (all visitors)", 25, r7_boolean_attributes),
         RuleSpec("C12-R8", "operator text (Operator.__str__ over every operator name of the IR)", 2, r8_operator_text),
         RuleSpec("C12-R9", "Java spelling of primitive and boxed built-in types (get_name along the MRO)", 16, r9_java_primitive_names),
+        RuleSpec("C12-R10", "variance keywords: Covariant prints `out`, Contravariant `in`, Invariant nothing", 4, r10_variance),
     ]
 
 
